@@ -143,7 +143,7 @@ SHAPE_DEFAULTS = {
     "inPlaceShape": True, "streamingPatches": True, "viewResponsePatches": True, "buildShape": True,
     "stampShape": True, "echoShape": True, "errorLikeShape": True, "errorUnstampedShape": True,
     "serverEchoCall": True, "asyncServerEchoCalls": True,
-    "wsServerParser": "exact", "wsClientParser": "exact",
+    "wsServerParser": "exact", "wsClientParser": "exact", "serverReadArms": True, "asyncReadTimeoutCloses": True, "clientReadLoopEnds": True,
     "readShape": True, "asyncReadShape": True, "readIntoShape": True, "asyncReadIntoShape": True, "readExactShape": True,
 }
 
@@ -398,6 +398,36 @@ def shapes(facts):
     group(facts, ["wsServerParser"], lambda: {"wsServerParser": parser_kind("src/websocket_server.rs")()})
     group(facts, ["wsClientParser"], lambda: {"wsClientParser": parser_kind("src/websocket_client.rs")()})
 
+    # ---- the servers' read loops: what happens after a failed / timed-out frame read (a stream reader is not resumable:
+    # after an error the stream position is inside a frame, so the only sound continuations are to end the connection)
+    def g_read_loops():
+        srv = " ".join(fn_body(strip(read("src/server.rs")), "handle_connection").split())
+        m = re.search(r"match read_message_into\(&mut reader, &mut buf\) \{(.*?)\} let view", srv)
+        arms_ok = False
+        if m:
+            arms = " ".join(m.group(1).split())
+            arms = re.sub(r"=> \{ return Err\((\w+)\);? \},?", r"=> return Err(\1),", arms)   # braces around the return do not matter
+            arms = re.sub(r"=> \{ break;? \},?", "=> break,", arms)
+            arms = re.sub(r"Err\((\w+)\) => return Err\(\1\),", "Err(e) => return Err(e),", arms)
+            arms_ok = arms in (
+                "Ok(()) => {} Err(RepeError::Io(ref e)) if e.kind() == std::io::ErrorKind::UnexpectedEof => break, Err(e) => return Err(e),",
+                "Ok(()) => {}, Err(RepeError::Io(ref e)) if e.kind() == std::io::ErrorKind::UnexpectedEof => break, Err(e) => return Err(e),")
+        asrv = " ".join(fn_body(test_mod_remove(strip(read("src/async_server.rs"))), "handle_connection").split())
+        asrv = re.sub(r"Err\(_\w*\) => return Ok\(\(\)\)", "Err(_) => return Ok(())", asrv)
+        a_ok = ("match timeout(dur, read_message_into_async(&mut reader, &mut buf)).await { Ok(r) => r?, Err(_) => return Ok(()), }" in asrv
+                and "read_message_into_async(&mut reader, &mut buf).await?;" in asrv
+                and len(re.findall(r"read_message_into_async\(", asrv)) == 2)
+        return {"serverReadArms": bool(arms_ok), "asyncReadTimeoutCloses": bool(a_ok)}
+    group(facts, ["serverReadArms", "asyncReadTimeoutCloses"], g_read_loops)
+
+    def g_client_loop():
+        cl = " ".join(fn_body(test_mod_remove(strip(read("src/client.rs"))), "spawn_response_loop").split())
+        m = re.search(r"match read_message\(&mut reader\) \{(.*?)\};", cl)
+        if not m: raise ExtractError("client response loop: read_message match not found")
+        arms = " ".join(m.group(1).split())
+        return {"clientReadLoopEnds": arms == "Ok(message) => message, Err(err) => { fail_all_pending(&inner, err); break; }"}
+    group(facts, ["clientReadLoopEnds"], g_client_loop)
+
     # ---- stream readers, statement by statement
     def g_readers():
         def norm(body): return [" ".join(x.split()) for x in statements2(body)]
@@ -425,7 +455,11 @@ def shapes(facts):
             m = re.fullmatch(r"let mut (\w+) = \[0u8; HEADER_SIZE\];", xs[0]) if xs else None
             return [re.sub(r"\b" + m.group(1) + r"\b", "HDR", x) for x in xs] if m else xs
         rx = norm(fn_body(io_src, "read_exact"))
-        rx_ok = len(rx) == 2 and rx[1] == "Ok(())" and re.fullmatch(
+        rx_fixed = (len(rx) == 2 and rx[1] == "Ok(())" and rx[0] ==
+            "while !buf.is_empty() { let n = match r.read(buf) { Ok(n) => n, Err(e) if e.kind() == std::io::ErrorKind::Interrupted => continue, "
+            "Err(e) => return Err(e.into()), }; if n == 0 { return Err(RepeError::Io(std::io::Error::from( std::io::ErrorKind::UnexpectedEof, ))); } "
+            "let tmp = buf; buf = &mut tmp[n..]; }")
+        rx_ok = rx_fixed or len(rx) == 2 and rx[1] == "Ok(())" and re.fullmatch(
             r"while !buf\.is_empty\(\) \{ let n = r\.read\(buf\)\?; if n == 0 \{ return Err\(RepeError::Io\(std::io::Error::from\( std::io::ErrorKind::UnexpectedEof, \)\)\); \} let tmp = buf; buf = &mut tmp\[n\.\.\]; \}", rx[0]) is not None
         return {"readShape": rename_hdr(rd) == rename_hdr(rd_want), "asyncReadShape": rename_hdr(ard) == rename_hdr(ard_want), "readIntoShape": loosen(ri) == loosen(ri_want),
                 "asyncReadIntoShape": loosen(ari) == loosen(ari_want), "readExactShape": bool(rx_ok)}
@@ -453,7 +487,7 @@ def render(f):
         L.append(f"def {k} : List Part := {lst(f[k])}")
     for k in ("decodeReturnsParsed", "sliceBoundsExact", "viewBoundsExact", "messageNewShape", "inPlaceShape", "streamingPatches", "viewResponsePatches",
               "buildShape", "stampShape", "echoShape", "errorLikeShape", "errorUnstampedShape", "serverEchoCall", "asyncServerEchoCalls",
-              "readShape", "asyncReadShape", "readIntoShape", "asyncReadIntoShape", "readExactShape"):
+              "readShape", "asyncReadShape", "readIntoShape", "asyncReadIntoShape", "readExactShape", "serverReadArms", "asyncReadTimeoutCloses", "clientReadLoopEnds"):
         L.append(f"def {k} : Bool := {'true' if f[k] else 'false'}")
     for k in ("wsServerParser", "wsClientParser"):
         L.append(f"def {k} : ParserKind := .{f[k]}")
